@@ -60,6 +60,38 @@ theorem maxU_canon (bits : ℕ) : Canon bits (maxU bits) ∧ val (maxU bits) = 2
       · exact h
     rw [hk, pred_mul_mod _ _ hp hkpos]
 
+/-! ## list toolkit -/
+
+theorem take_drop_val (a : List ℕ) (m : ℕ) (hm : m ≤ a.length) :
+    val a = val (a.take m) + W ^ m * val (a.drop m) := by
+  conv_lhs => rw [← List.take_append_drop m a]
+  rw [val_append, List.length_take, Nat.min_eq_left hm]
+
+theorem allLt_take {a : List ℕ} (h : AllLt a) (m : ℕ) : AllLt (a.take m) :=
+  fun x hx => h x (List.mem_of_mem_take hx)
+theorem allLt_drop {a : List ℕ} (h : AllLt a) (m : ℕ) : AllLt (a.drop m) :=
+  fun x hx => h x (List.mem_of_mem_drop hx)
+theorem allLt_reverse {a : List ℕ} (h : AllLt a) : AllLt a.reverse :=
+  fun x hx => h x (List.mem_reverse.mp hx)
+
+theorem val_eq_zero_iff (l : List ℕ) : val l = 0 ↔ ∀ x ∈ l, x = 0 := by
+  induction l with
+  | nil => simp
+  | cons x xs ih =>
+    have hW := W_pos
+    simp only [val_cons, List.mem_cons, forall_eq_or_imp]
+    constructor
+    · intro h
+      have h1 : x = 0 := by omega
+      have h2 : W * val xs = 0 := by omega
+      have h3 : val xs = 0 := by
+        rcases Nat.mul_eq_zero.mp h2 with h | h
+        · omega
+        · exact h
+      exact ⟨h1, ih.mp h3⟩
+    · rintro ⟨h1, h2⟩
+      rw [h1, ih.mpr h2]; simp
+
 /-! ## `val` and `testBit` -/
 
 theorem W_two_pow : W = 2 ^ 64 := rfl
@@ -197,5 +229,853 @@ theorem bit_spec (bits : ℕ) (a : List ℕ) (ha : AllLt a) (i : ℕ) :
   · have : i < bits := by omega
     simp only [h, if_false, this, decide_true, Bool.true_and]
     rw [and_two_pow_ne_zero, val_testBit a ha]
+
+/-! ## `not` -/
+
+theorem wnot_lt (x : ℕ) : wnot x < W := by unfold wnot; have := W_pos; omega
+
+theorem val_map_wnot (l : List ℕ) (h : AllLt l) :
+    val (l.map wnot) + val l + 1 = W ^ l.length ∧ AllLt (l.map wnot) := by
+  induction l with
+  | nil => simp [AllLt]
+  | cons x xs ih =>
+    obtain ⟨i1, i2⟩ := ih h.tail
+    have hx : x < W := h.head
+    refine ⟨?_, AllLt.cons (wnot_lt x) i2⟩
+    simp only [List.map_cons, val_cons, List.length_cons, pow_succ, wnot]
+    generalize val (xs.map wnot) = r at *
+    generalize W ^ xs.length = P at *
+    have : W - 1 - x + x + 1 = W := by omega
+    nlinarith
+
+/-- `not`: canonical, value `2^bits − 1 − a`. -/
+theorem not_val (bits : ℕ) (a : List ℕ) (ha : Canon bits a) :
+    Canon bits (not bits a) ∧ val (not bits a) = 2 ^ bits - 1 - val a := by
+  unfold not
+  rcases Nat.eq_zero_or_pos bits with h0 | hpos
+  · subst h0
+    have ea := canon_zero_bits a ha
+    subst ea
+    simp [(zero_canon 0).1, (zero_canon 0).2]
+  · have hne : bits ≠ 0 := by omega
+    simp only [hne, if_false]
+    obtain ⟨v1, v2⟩ := val_map_wnot a ha.2.1
+    obtain ⟨m1, m2, _⟩ := maskTop_spec bits hpos (a.map wnot) (by simp [ha.1]) v2
+    refine ⟨m1, ?_⟩
+    rw [m2]
+    obtain ⟨k, hk⟩ := pow_dvd_W bits
+    have hA := ha.val_lt
+    have hp : 0 < 2 ^ bits := by positivity
+    have hkpos : 0 < k := by
+      rcases Nat.eq_zero_or_pos k with h | h
+      · subst h; have := W_pos; have : 0 < W ^ nlimbs bits := by positivity
+        omega
+      · exact h
+    rw [ha.1, hk] at v1
+    have e : val (a.map wnot) = (2 ^ bits - 1 - val a) + 2 ^ bits * (k - 1) := by
+      have : 2 ^ bits * k = 2 ^ bits * (k - 1) + 2 ^ bits := by
+        rw [← Nat.mul_succ]; congr 1; omega
+      omega
+    rw [e, Nat.add_mul_mod_self_left, Nat.mod_eq_of_lt (by omega)]
+
+theorem testBit_not (bits A i : ℕ) (hA : A < 2 ^ bits) :
+    (2 ^ bits - 1 - A).testBit i = (decide (i < bits) && !A.testBit i) := by
+  have : 2 ^ bits - 1 - A = 2 ^ bits - (A + 1) := by omega
+  rw [this, Nat.testBit_two_pow_sub_succ hA]
+
+/-! ## limb extraction -/
+
+theorem getD_lt (l : List ℕ) (h : AllLt l) (k : ℕ) : l.getD k 0 < W := by
+  rw [List.getD_eq_getElem?_getD]
+  cases hk : l[k]? with
+  | none => exact W_pos
+  | some x => exact h x (List.mem_of_getElem? hk)
+
+theorem val_drop (l : List ℕ) (h : AllLt l) (k : ℕ) : val (l.drop k) = val l / W ^ k := by
+  by_cases hk : k ≤ l.length
+  · have e := take_drop_val l k hk
+    have hlt := val_lt_pow _ (allLt_take h k)
+    rw [List.length_take, Nat.min_eq_left hk] at hlt
+    have hp : 0 < W ^ k := by have := W_pos; positivity
+    rw [e, Nat.add_mul_div_left _ _ hp, Nat.div_eq_of_lt hlt, Nat.zero_add]
+  · have hd : l.drop k = [] := List.drop_eq_nil_of_le (by omega)
+    have hlt := val_lt_pow l h
+    have : W ^ l.length ≤ W ^ k := Nat.pow_le_pow_right W_pos (by omega)
+    rw [hd, Nat.div_eq_of_lt (by omega)]; rfl
+
+theorem val_drop_cons (l : List ℕ) (k : ℕ) :
+    val (l.drop k) = l.getD k 0 + W * val (l.drop (k + 1)) := by
+  by_cases hk : k < l.length
+  · rw [List.drop_eq_getElem_cons hk, val_cons, List.getD_eq_getElem?_getD,
+      List.getElem?_eq_getElem hk]; rfl
+  · have h1 : l.drop k = [] := List.drop_eq_nil_of_le (by omega)
+    have h2 : l.drop (k + 1) = [] := List.drop_eq_nil_of_le (by omega)
+    have h3 : l.getD k 0 = 0 := by
+      rw [List.getD_eq_getElem?_getD, List.getElem?_eq_none (by omega)]; rfl
+    rw [h1, h2, h3]; rfl
+
+/-- limb `k` is `⌊val / W^k⌋ mod W`. -/
+theorem getD_eq_div_mod (l : List ℕ) (h : AllLt l) (k : ℕ) : l.getD k 0 = val l / W ^ k % W := by
+  rw [← val_drop l h k, val_drop_cons, Nat.add_mul_mod_self_left, Nat.mod_eq_of_lt (getD_lt l h k)]
+
+/-! ## `byte` -/
+
+theorem byte_val (l : List ℕ) (h : AllLt l) (i : ℕ) :
+    l.getD (i / 8) 0 / 256 ^ (i % 8) % 256 = val l / 256 ^ i % 256 := by
+  have hW : W = 256 ^ (i % 8) * (256 * 256 ^ (7 - i % 8)) := by
+    rw [← pow_succ', ← pow_add]
+    have : i % 8 + (7 - i % 8 + 1) = 8 := by omega
+    rw [this]; rfl
+  have hi : 256 ^ i = W ^ (i / 8) * 256 ^ (i % 8) := by
+    have : W = 256 ^ 8 := rfl
+    rw [this, ← pow_mul, ← pow_add]; congr 1; omega
+  rw [hi, ← Nat.div_div_eq_div_mul, ← val_drop l h, val_drop_cons]
+  generalize l.getD (i / 8) 0 = x
+  generalize val (l.drop (i / 8 + 1)) = rest
+  have hp : 0 < 256 ^ (i % 8) := by positivity
+  rw [hW, Nat.mul_assoc, Nat.add_mul_div_left _ _ hp, Nat.mul_assoc, Nat.add_mul_mod_self_left]
+
+/-! ## `set_bit` -/
+
+theorem wnot_two_pow_testBit (k m : ℕ) (hk : k < 64) :
+    (wnot (2 ^ k)).testBit m = (decide (m < 64) && !decide (k = m)) := by
+  have h : 2 ^ k < 2 ^ 64 := Nat.pow_lt_pow_right (by norm_num) hk
+  have : wnot (2 ^ k) = 2 ^ 64 - (2 ^ k + 1) := by unfold wnot W; omega
+  rw [this, Nat.testBit_two_pow_sub_succ h, Nat.testBit_two_pow]
+
+theorem getD_modify (l : List ℕ) (f : ℕ → ℕ) (i j : ℕ) :
+    (l.modify i f).getD j 0 = if i = j ∧ j < l.length then f (l.getD j 0) else l.getD j 0 := by
+  rw [List.getD_eq_getElem?_getD, List.getD_eq_getElem?_getD, List.getElem?_modify]
+  by_cases hj : j < l.length
+  · rw [List.getElem?_eq_getElem hj]
+    by_cases hij : i = j <;> simp [hij, hj]
+  · rw [List.getElem?_eq_none (by omega)]
+    simp [hj]
+
+theorem allLt_modify (l : List ℕ) (h : AllLt l) (f : ℕ → ℕ) (hf : ∀ x, x < W → f x < W) (i : ℕ) :
+    AllLt (l.modify i f) := by
+  induction l generalizing i with
+  | nil => simpa using h
+  | cons x xs ih =>
+    cases i with
+    | zero => exact AllLt.cons (hf x h.head) h.tail
+    | succ i => exact AllLt.cons h.head (ih h.tail i)
+
+/-- `set_bit`: canonical; exactly the addressed bit is written, an out-of-range index writes nothing. -/
+theorem setBit_spec (bits : ℕ) (a : List ℕ) (i : ℕ) (v : Bool) (ha : Canon bits a) :
+    Canon bits (setBit bits a i v)
+    ∧ ∀ j, (val (setBit bits a i v)).testBit j
+        = if j = i ∧ i < bits then v else (val a).testBit j := by
+  unfold setBit
+  by_cases hi : i ≥ bits
+  · simp only [hi, if_true]
+    refine ⟨ha, fun j => ?_⟩
+    have : ¬ (j = i ∧ i < bits) := by omega
+    simp [this]
+  · simp only [hi, if_false]
+    have hib : i < bits := by omega
+    have hk : i % 64 < 64 := Nat.mod_lt _ (by norm_num)
+    have hpow : 2 ^ (i % 64) < 2 ^ 64 := Nat.pow_lt_pow_right (by norm_num) hk
+    have hil : i / 64 < a.length := by rw [ha.1]; unfold nlimbs; omega
+    have hall : AllLt (a.modify (i / 64) fun x =>
+        if v = true then x ||| 2 ^ (i % 64) else x &&& wnot (2 ^ (i % 64))) := by
+      apply allLt_modify a ha.2.1
+      intro x hx
+      split
+      · exact Nat.or_lt_two_pow hx hpow
+      · exact lt_of_le_of_lt Nat.and_le_left hx
+    have hbits : ∀ j, (val (a.modify (i / 64) fun x =>
+        if v = true then x ||| 2 ^ (i % 64) else x &&& wnot (2 ^ (i % 64)))).testBit j
+        = if j = i ∧ i < bits then v else (val a).testBit j := by
+      intro j
+      rw [val_testBit _ hall, getD_modify, val_testBit a ha.2.1]
+      by_cases hj : j = i
+      · subst hj
+        simp only [true_and, hil, if_true, hib]
+        cases v
+        · simp [Nat.testBit_and, wnot_two_pow_testBit _ _ hk]
+        · simp [Nat.testBit_or]
+      · have hne : ¬ (j = i ∧ i < bits) := fun h => hj h.1
+        simp only [hne, if_false]
+        by_cases hq : i / 64 = j / 64 ∧ j / 64 < a.length
+        · simp only [hq, and_self, if_true]
+          have hm : i % 64 ≠ j % 64 := by omega
+          have hjm : j % 64 < 64 := Nat.mod_lt _ (by norm_num)
+          cases v
+          · simp [Nat.testBit_and, wnot_two_pow_testBit _ _ hk, hm, hjm]
+          · simp [Nat.testBit_or, hm]
+        · simp only [hq, if_false]
+    refine ⟨⟨by rw [List.length_modify, ha.1], hall, ?_⟩, hbits⟩
+    apply lt_two_pow_of_testBit
+    intro j hj
+    rw [hbits j]
+    have hne : ¬ (j = i ∧ i < bits) := by omega
+    simp only [hne, if_false]
+    exact val_testBit_lt bits a ha j hj
+
+/-! ## bit length -/
+
+/-- number of significant bits: `0` for `0`, else `⌊log₂ x⌋ + 1` (`Nat.size`). -/
+def size (x : ℕ) : ℕ := if x = 0 then 0 else Nat.log2 x + 1
+
+theorem size_zero : size 0 = 0 := rfl
+
+/-- `size` is pinned by `2^(L-1) ≤ x < 2^L`. -/
+theorem size_unique (x L : ℕ) (hx : x ≠ 0) (h1 : x < 2 ^ L) (h2 : 2 ^ (L - 1) ≤ x) : size x = L := by
+  unfold size
+  simp only [hx, if_false]
+  have hL : L ≠ 0 := by
+    intro h; subst h; simp at h1; omega
+  have a1 : x.log2 < L := (Nat.log2_lt hx).mpr h1
+  have a2 : ¬ x.log2 < L - 1 := by
+    rw [Nat.log2_lt hx]; omega
+  omega
+
+theorem size_bounds (x : ℕ) : x < 2 ^ size x ∧ (x ≠ 0 → 2 ^ (size x - 1) ≤ x) := by
+  unfold size
+  by_cases hx : x = 0
+  · subst hx; simp
+  · simp only [hx, if_false, ne_eq, not_false_eq_true, Nat.add_sub_cancel, forall_true_left]
+    exact ⟨Nat.lt_log2_self, Nat.log2_self_le hx⟩
+
+theorem size_le (x bits : ℕ) (h : x < 2 ^ bits) : size x ≤ bits := by
+  unfold size
+  by_cases hx : x = 0
+  · simp [hx]
+  · simp only [hx, if_false]
+    have := (Nat.log2_lt hx).mpr h
+    omega
+
+theorem bitLenAux_zero (f : ℕ) : bitLenAux f 0 = 0 := by cases f <;> simp [bitLenAux]
+
+theorem bitLenAux_spec (f x : ℕ) (h : x < 2 ^ f) : bitLenAux f x = size x := by
+  induction f generalizing x with
+  | zero =>
+    have : x = 0 := by simpa using h
+    subst this; rfl
+  | succ f ih =>
+    by_cases hx : x = 0
+    · subst hx; rfl
+    · simp only [bitLenAux, hx, if_false]
+      have h2 : x / 2 < 2 ^ f := by rw [pow_succ] at h; omega
+      rw [ih (x / 2) h2]
+      symm
+      by_cases hx2 : x / 2 = 0
+      · have : x = 1 := by omega
+        subst this
+        rw [hx2, size_zero]
+        exact size_unique 1 1 (by norm_num) (by norm_num) (by norm_num)
+      · obtain ⟨b1, b2⟩ := size_bounds (x / 2)
+        have b2 := b2 hx2
+        have hs : size (x / 2) ≠ 0 := by
+          intro h0; rw [h0] at b1; simp at b1; omega
+        apply size_unique x _ hx
+        · rw [pow_succ]; omega
+        · rw [Nat.add_sub_cancel]
+          have : 2 ^ size (x / 2) = 2 ^ (size (x / 2) - 1) * 2 := by
+            rw [← pow_succ]; congr 1; omega
+          omega
+
+/-- spec of the word primitive behind `u64::leading_zeros`. -/
+theorem bitLen64_spec (x : ℕ) (h : x < W) : bitLen64 x = size x ∧ bitLen64 x ≤ 64 := by
+  have := bitLenAux_spec 64 x h
+  exact ⟨this, by unfold bitLen64; rw [this]; exact size_le x 64 h⟩
+
+theorem clz64_spec (x : ℕ) (h : x < W) : clz64 x + size x = 64 := by
+  obtain ⟨h1, h2⟩ := bitLen64_spec x h
+  unfold clz64; omega
+
+theorem size_mask (bits : ℕ) (hpos : 0 < bits) : size (mask bits) = topBits bits := by
+  obtain ⟨t1, t2, _⟩ := topBits_range bits hpos
+  rw [mask_eq bits hpos]
+  have hp : 2 ^ topBits bits = 2 ^ (topBits bits - 1) * 2 := by
+    rw [← pow_succ]; congr 1; omega
+  have : 0 < 2 ^ (topBits bits - 1) := by positivity
+  apply size_unique
+  · omega
+  · omega
+  · omega
+
+/-! ## highest non-zero limb -/
+
+theorem rposNonzero_spec (l : List ℕ) :
+    match rposNonzero l with
+    | none => val l = 0
+    | some i => i < l.length ∧ l.getD i 0 ≠ 0 ∧ val (l.drop (i + 1)) = 0 := by
+  induction l with
+  | nil => simp [rposNonzero]
+  | cons x xs ih =>
+    unfold rposNonzero
+    cases h : rposNonzero xs with
+    | some i =>
+      rw [h] at ih
+      simp only [List.length_cons, List.getD_cons_succ, List.drop_succ_cons]
+      exact ⟨by omega, ih.2.1, ih.2.2⟩
+    | none =>
+      rw [h] at ih
+      simp only at ih
+      by_cases hx : x ≠ 0
+      · rw [if_pos hx]
+        simp only [List.length_cons, List.getD_cons_zero, Nat.zero_add, List.drop_succ_cons,
+          List.drop_zero]
+        exact ⟨by omega, hx, ih⟩
+      · rw [if_neg hx]
+        have : x = 0 := by simpa using hx
+        simp only [val_cons, this, ih, Nat.mul_zero, Nat.add_zero]
+
+/-- value bounds from the highest non-zero limb `x` at position `i`. -/
+theorem size_of_top (l : List ℕ) (h : AllLt l) (i : ℕ) (hi : i < l.length)
+    (hx : l.getD i 0 ≠ 0) (hz : val (l.drop (i + 1)) = 0) :
+    size (val l) = 64 * i + size (l.getD i 0) ∧ val l / W ^ i = l.getD i 0 := by
+  have e := take_drop_val l i (by omega)
+  have hlo := val_lt_pow _ (allLt_take h i)
+  rw [List.length_take, Nat.min_eq_left (by omega)] at hlo
+  rw [val_drop_cons, hz, Nat.mul_zero, Nat.add_zero] at e
+  have hxW := getD_lt l h i
+  generalize l.getD i 0 = x at *
+  obtain ⟨b1, b2⟩ := size_bounds x
+  have b2 := b2 hx
+  have hP : W ^ i = 2 ^ (64 * i) := by unfold W; rw [← pow_mul]
+  have hPpos : 0 < W ^ i := by have := W_pos; positivity
+  have hs : size x ≠ 0 := by
+    intro h0; rw [h0] at b1; simp at b1; omega
+  constructor
+  · apply size_unique
+    · have : 0 < W ^ i * x := Nat.mul_pos hPpos (Nat.pos_of_ne_zero hx)
+      omega
+    · rw [e, pow_add, ← hP]
+      have : W ^ i * (x + 1) ≤ W ^ i * 2 ^ size x := Nat.mul_le_mul_left _ b1
+      nlinarith
+    · have : 64 * i + size x - 1 = 64 * i + (size x - 1) := by omega
+      rw [this, pow_add, ← hP, e]
+      have : W ^ i * 2 ^ (size x - 1) ≤ W ^ i * x := Nat.mul_le_mul_left _ b2
+      omega
+  · rw [e, Nat.add_mul_div_left _ _ hPpos, Nat.div_eq_of_lt hlo, Nat.zero_add]
+
+/-- `leading_zeros = BITS − (number of significant bits)`; `bit_len` is the number of significant
+    bits. -/
+theorem leadingZeros_spec (bits : ℕ) (a : List ℕ) (ha : Canon bits a) :
+    leadingZeros bits a = bits - size (val a) := by
+  unfold leadingZeros
+  have hr := rposNonzero_spec a
+  cases h : rposNonzero a with
+  | none =>
+    rw [h] at hr
+    simp only at hr ⊢
+    rw [hr, size_zero, Nat.sub_zero]
+  | some i =>
+    rw [h] at hr
+    simp only at hr ⊢
+    obtain ⟨h1, h2, h3⟩ := hr
+    have hpos : 0 < bits := by
+      rcases Nat.eq_zero_or_pos bits with h0 | h0
+      · subst h0; have := canon_zero_bits a ha; subst this; simp at h1
+      · exact h0
+    obtain ⟨s1, _⟩ := size_of_top a ha.2.1 i h1 h2 h3
+    have c1 := clz64_spec (a.getD i 0) (getD_lt a ha.2.1 i)
+    have c2 := clz64_spec (mask bits) (mask_lt_W bits)
+    rw [size_mask bits hpos] at c2
+    obtain ⟨t1, t2, t3⟩ := topBits_range bits hpos
+    have hle := size_le (val a) bits ha.val_lt
+    rw [ha.1] at h1
+    rw [s1] at hle ⊢
+    generalize size (a.getD i 0) = Lx at *
+    generalize clz64 (a.getD i 0) = cx at *
+    generalize clz64 (mask bits) = cm at *
+    generalize topBits bits = tb at *
+    generalize nlimbs bits = n at *
+    omega
+
+/-! ## trailing zeros / ones -/
+
+theorem ctzAux_spec (f x : ℕ) (hx : x ≠ 0) (h : x < 2 ^ f) :
+    ∃ o, x = 2 ^ ctzAux f x * o ∧ o % 2 = 1 ∧ ctzAux f x < f := by
+  induction f generalizing x with
+  | zero => simp at h; omega
+  | succ f ih =>
+    by_cases hodd : x % 2 = 1
+    · exact ⟨x, by simp [ctzAux, hodd], hodd, by simp [ctzAux, hodd]⟩
+    · simp only [ctzAux, hodd, if_false]
+      have h2 : x / 2 < 2 ^ f := by rw [pow_succ] at h; omega
+      obtain ⟨o, e1, e2, e3⟩ := ih (x / 2) (by omega) h2
+      refine ⟨o, ?_, e2, by omega⟩
+      have : x = 2 * (x / 2) := by omega
+      rw [pow_succ, Nat.mul_comm _ 2, Nat.mul_assoc, ← e1]
+      exact this
+
+/-- spec of the word primitive behind `u64::trailing_zeros`: `x = 2^ctz · odd` for `x ≠ 0`
+    (and `ctz 0 = 64`). -/
+theorem ctz64_spec (x : ℕ) (hx : x ≠ 0) (h : x < W) :
+    ∃ o, x = 2 ^ ctz64 x * o ∧ o % 2 = 1 ∧ ctz64 x < 64 := by
+  unfold ctz64; simp only [hx, if_false]; exact ctzAux_spec 64 x hx h
+
+theorem ctz64_zero : ctz64 0 = 64 := rfl
+
+theorem position_spec (p : ℕ → Bool) (l : List ℕ) :
+    match position p l with
+    | none => ∀ x ∈ l, p x = false
+    | some n => n < l.length ∧ p (l.getD n 0) = true ∧ ∀ x ∈ l.take n, p x = false := by
+  induction l with
+  | nil => simp [position]
+  | cons x xs ih =>
+    unfold position
+    by_cases hp : p x = true
+    · simp [hp]
+    · simp only [hp]
+      have hpf : p x = false := by simpa using hp
+      cases h : position p xs with
+      | none =>
+        rw [h] at ih
+        simp only [Option.map_none]
+        intro y hy
+        simp only [List.mem_cons] at hy
+        rcases hy with rfl | hy
+        · exact hpf
+        · exact ih y hy
+      | some n =>
+        rw [h] at ih
+        simp only [Option.map_some]
+        refine ⟨by simp only [List.length_cons]; omega, by simpa using ih.2.1, ?_⟩
+        intro y hy
+        rw [List.take_succ_cons] at hy
+        simp only [List.mem_cons] at hy
+        rcases hy with rfl | hy
+        · exact hpf
+        · exact ih.2.2 y hy
+
+theorem val_replicate (n x : ℕ) : val (List.replicate n x) * (W - 1) + x = x * W ^ n := by
+  induction n with
+  | zero => simp
+  | succ n ih =>
+    simp only [List.replicate_succ, val_cons, pow_succ]
+    have hW := W_pos
+    obtain ⟨w, hw⟩ : ∃ w, W = w + 1 := ⟨W - 1, by omega⟩
+    rw [hw] at ih ⊢
+    simp only [Nat.add_sub_cancel] at ih ⊢
+    nlinarith
+
+theorem eq_replicate_of_forall (l : List ℕ) (x : ℕ) (h : ∀ y ∈ l, y = x) :
+    l = List.replicate l.length x := by
+  induction l with
+  | nil => rfl
+  | cons y ys ih =>
+    rw [List.length_cons, List.replicate_succ, h y (by simp), ← ih (fun z hz => h z (by simp [hz]))]
+
+/-- a value whose low `n` limbs are zero. -/
+theorem val_low_zero (l : List ℕ) (n : ℕ) (hn : n ≤ l.length) (h : ∀ x ∈ l.take n, x = 0) :
+    val l = W ^ n * val (l.drop n) := by
+  rw [take_drop_val l n hn]
+  have : val (l.take n) = 0 := (val_eq_zero_iff _).mpr h
+  rw [this, Nat.zero_add]
+
+/-- `trailing_zeros`: `BITS` for zero, else the exponent of the largest power of two dividing the value. -/
+theorem trailingZeros_spec (bits : ℕ) (a : List ℕ) (ha : Canon bits a) :
+    (val a = 0 → trailingZeros bits a = bits)
+    ∧ (val a ≠ 0 → ∃ m, val a = 2 ^ trailingZeros bits a * m ∧ m % 2 = 1) := by
+  unfold trailingZeros
+  have hp := position_spec (fun l => l != 0) a
+  cases h : position (fun l => l != 0) a with
+  | none =>
+    rw [h] at hp
+    simp only at hp ⊢
+    have hz : val a = 0 := (val_eq_zero_iff a).mpr
+      (fun x hx => by simpa using hp x hx)
+    exact ⟨fun _ => trivial, fun hne => absurd hz hne⟩
+  | some n =>
+    rw [h] at hp
+    simp only at hp ⊢
+    obtain ⟨h1, h2, h3⟩ := hp
+    have hx0 : a.getD n 0 ≠ 0 := by simpa using h2
+    have e := val_low_zero a n (by omega) (fun x hx => by simpa using h3 x hx)
+    rw [val_drop_cons] at e
+    obtain ⟨o, o1, o2, o3⟩ := ctz64_spec (a.getD n 0) hx0 (getD_lt a ha.2.1 n)
+    have hWc : W = 2 ^ ctz64 (a.getD n 0) * (2 * 2 ^ (63 - ctz64 (a.getD n 0))) := by
+      rw [← pow_succ', ← pow_add]; unfold W; congr 1; omega
+    have hP : W ^ n = 2 ^ (64 * n) := by unfold W; rw [← pow_mul]
+    have hval : val a = 2 ^ (n * 64 + ctz64 (a.getD n 0))
+        * (o + 2 * 2 ^ (63 - ctz64 (a.getD n 0)) * val (a.drop (n + 1))) := by
+      rw [e, hP, Nat.mul_comm n 64, pow_add, Nat.mul_assoc]
+      congr 1
+      conv_lhs => rw [o1, hWc]
+      ring
+    have hne : val a ≠ 0 := by
+      rw [e]
+      have : 0 < W ^ n := by have := W_pos; positivity
+      have : 0 < a.getD n 0 := Nat.pos_of_ne_zero hx0
+      have : 0 < W ^ n * (a.getD n 0 + W * val (a.drop (n + 1))) := Nat.mul_pos ‹_› (by omega)
+      omega
+    refine ⟨fun hz => absurd hz hne, fun _ => ⟨_, hval, ?_⟩⟩
+    rw [Nat.mul_assoc, Nat.add_mul_mod_self_left]; exact o2
+
+/-- a value whose low `n` limbs are all-ones. -/
+theorem val_low_ones (l : List ℕ) (n : ℕ) (hn : n ≤ l.length) (h : ∀ x ∈ l.take n, x = W - 1) :
+    val l + 1 = W ^ n * (val (l.drop n) + 1) := by
+  rw [take_drop_val l n hn]
+  have hr := eq_replicate_of_forall (l.take n) (W - 1) h
+  rw [List.length_take, Nat.min_eq_left hn] at hr
+  have hv := val_replicate_max n
+  rw [← hr] at hv
+  have : 0 < W ^ n := by have := W_pos; positivity
+  rw [hv, Nat.mul_add, Nat.mul_one]; omega
+
+/-- `trailing_ones`: the exponent of the largest power of two dividing `value + 1`
+    (so `BITS` for `MAX`, whose successor is `2^BITS`). -/
+theorem trailingOnes_spec (bits : ℕ) (a : List ℕ) (ha : Canon bits a) :
+    ∃ m, val a + 1 = 2 ^ trailingOnes bits a * m ∧ m % 2 = 1 := by
+  unfold trailingOnes
+  have hp := position_spec (fun l => l != W - 1) a
+  cases h : position (fun l => l != W - 1) a with
+  | none =>
+    rw [h] at hp
+    simp only at hp ⊢
+    have e := val_low_ones a a.length (le_refl _)
+      (fun x hx => by simpa using hp x (List.mem_of_mem_take hx))
+    rw [List.drop_length, val_nil, Nat.zero_add, Nat.mul_one, ha.1] at e
+    -- W^n - 1 < 2^bits ≤ W^n, and 2^bits ∣ W^n, hence 2^bits = W^n
+    obtain ⟨k, hk⟩ := pow_dvd_W bits
+    have hA := ha.val_lt
+    have hpos : 0 < 2 ^ bits := by positivity
+    have hk1 : k = 1 := by
+      rcases Nat.lt_trichotomy k 1 with hk0 | hk0 | hk0
+      · have : k = 0 := by omega
+        subst this; omega
+      · exact hk0
+      · exfalso
+        have : 2 ^ bits * 2 ≤ 2 ^ bits * k := Nat.mul_le_mul_left _ hk0
+        omega
+    refine ⟨1, ?_, rfl⟩
+    rw [e, hk, hk1]
+  | some n =>
+    rw [h] at hp
+    simp only at hp ⊢
+    obtain ⟨h1, h2, h3⟩ := hp
+    have hxW := getD_lt a ha.2.1 n
+    have hx0 : a.getD n 0 ≠ W - 1 := by simpa using h2
+    have e := val_low_ones a n (by omega) (fun x hx => by simpa using h3 x hx)
+    rw [val_drop_cons] at e
+    have hy0 : wnot (a.getD n 0) ≠ 0 := by unfold wnot; omega
+    obtain ⟨o, o1, o2, o3⟩ := ctz64_spec (wnot (a.getD n 0)) hy0 (wnot_lt _)
+    unfold cto64
+    generalize ctz64 (wnot (a.getD n 0)) = c at *
+    have hWc : W = 2 ^ c * (2 * 2 ^ (63 - c)) := by
+      rw [← pow_succ', ← pow_add]; unfold W; congr 1; omega
+    have hP : W ^ n = 2 ^ (64 * n) := by unfold W; rw [← pow_mul]
+    -- x + 1 = W - y = 2^c * (2 * 2^(63-c) - o)
+    have hole : o ≤ 2 * 2 ^ (63 - c) := by
+      by_contra hc
+      push Not at hc
+      have : 2 ^ c * (2 * 2 ^ (63 - c)) < 2 ^ c * o := Nat.mul_lt_mul_of_pos_left hc (by positivity)
+      have := wnot_lt (a.getD n 0)
+      omega
+    have hx1 : a.getD n 0 + 1 = 2 ^ c * (2 * 2 ^ (63 - c) - o) := by
+      rw [Nat.mul_sub, ← hWc, ← o1]; unfold wnot; omega
+    refine ⟨(2 * 2 ^ (63 - c) - o) + 2 * 2 ^ (63 - c) * val (a.drop (n + 1)), ?_, ?_⟩
+    · rw [e, hP, Nat.mul_comm n 64, pow_add, Nat.mul_assoc]
+      congr 1
+      have : a.getD n 0 + W * val (a.drop (n + 1)) + 1
+          = (a.getD n 0 + 1) + W * val (a.drop (n + 1)) := by omega
+      rw [this, hx1]
+      conv_lhs => rw [hWc]
+      ring
+    · rw [Nat.mul_assoc, Nat.add_mul_mod_self_left]
+      omega
+
+/-! ## population count -/
+
+/-- number of set bits among positions `0..n-1`. -/
+def bitCount (n A : ℕ) : ℕ := (List.range n).countP (fun i => A.testBit i)
+
+theorem popAux_zero (f : ℕ) : popAux f 0 = 0 := by
+  induction f with
+  | zero => rfl
+  | succ f ih => simp [popAux, ih]
+
+/-- spec of the word primitive behind `u64::count_ones`: the number of set bits below `f`. -/
+theorem popAux_eq_bitCount (f x : ℕ) : popAux f x = bitCount f x := by
+  induction f generalizing x with
+  | zero => rfl
+  | succ f ih =>
+    unfold bitCount at *
+    rw [popAux, ih, List.range_succ_eq_map, List.countP_cons, List.countP_map, Nat.add_comm]
+    congr 1
+    · congr 1; funext i; simp [Nat.testBit_succ]
+    · rw [Nat.testBit_zero]
+      have := Nat.mod_two_eq_zero_or_one x
+      rcases this with h | h <;> simp [h]
+
+theorem popAux_add (f g x y : ℕ) (hx : x < 2 ^ f) :
+    popAux (f + g) (x + 2 ^ f * y) = popAux f x + popAux g y := by
+  induction f generalizing x with
+  | zero =>
+    have : x = 0 := by simpa using hx
+    subst this; simp [popAux]
+  | succ f ih =>
+    have h2 : x / 2 < 2 ^ f := by rw [pow_succ] at hx; omega
+    have e1 : f + 1 + g = (f + g) + 1 := by omega
+    have e2 : (x + 2 ^ (f + 1) * y) % 2 = x % 2 := by
+      rw [pow_succ, Nat.mul_comm (2 ^ f) 2, Nat.mul_assoc, Nat.add_mul_mod_self_left]
+    have e3 : (x + 2 ^ (f + 1) * y) / 2 = x / 2 + 2 ^ f * y := by
+      rw [pow_succ, Nat.mul_comm (2 ^ f) 2, Nat.mul_assoc, Nat.add_mul_div_left _ _ (by norm_num)]
+    rw [e1, popAux, e2, e3, ih (x / 2) h2, popAux]
+    omega
+
+theorem foldl_add_popcnt (l : List ℕ) (acc : ℕ) :
+    l.foldl (fun t x => t + popcnt64 x) acc = acc + l.foldl (fun t x => t + popcnt64 x) 0 := by
+  induction l generalizing acc with
+  | nil => simp
+  | cons x xs ih => simp only [List.foldl_cons, Nat.zero_add]; rw [ih, ih (popcnt64 x)]; omega
+
+theorem countOnes_eq_popAux (l : List ℕ) (h : AllLt l) :
+    countOnes l = popAux (64 * l.length) (val l) := by
+  induction l with
+  | nil => rfl
+  | cons x xs ih =>
+    unfold countOnes at *
+    have hx : x < 2 ^ 64 := h.head
+    rw [List.foldl_cons, Nat.zero_add, foldl_add_popcnt, ih h.tail, List.length_cons, val_cons]
+    have : 64 * (xs.length + 1) = 64 + 64 * xs.length := by omega
+    rw [this, W_two_pow, popAux_add 64 _ x _ hx]; rfl
+
+theorem bitCount_mono (n m A : ℕ) (hnm : n ≤ m) (hA : A < 2 ^ n) : bitCount m A = bitCount n A := by
+  unfold bitCount
+  obtain ⟨d, rfl⟩ : ∃ d, m = n + d := ⟨m - n, by omega⟩
+  rw [List.range_add, List.countP_append, List.countP_map]
+  have : List.countP ((fun i => A.testBit i) ∘ fun x => n + x) (List.range d) = 0 := by
+    rw [List.countP_eq_zero]
+    intro i _
+    simp only [Function.comp, Bool.not_eq_true]
+    exact Nat.testBit_lt_two_pow (lt_of_lt_of_le hA (Nat.pow_le_pow_right (by norm_num) (by omega)))
+  rw [this, Nat.add_zero]
+
+/-- `count_ones` = number of set bits among the `bits` positions. -/
+theorem countOnes_spec (bits : ℕ) (a : List ℕ) (ha : Canon bits a) :
+    countOnes a = bitCount bits (val a) := by
+  rw [countOnes_eq_popAux a ha.2.1, popAux_eq_bitCount, ha.1]
+  apply bitCount_mono _ _ _ _ ha.val_lt
+  unfold nlimbs; omega
+
+theorem bitCount_le (n A : ℕ) : bitCount n A ≤ n := by
+  unfold bitCount
+  have := List.countP_le_length (p := fun i => A.testBit i) (l := List.range n)
+  simpa using this
+
+/-- `count_zeros` = number of clear bits among the `bits` positions. -/
+theorem bitCount_compl (n A : ℕ) :
+    n - bitCount n A = (List.range n).countP (fun i => !A.testBit i) := by
+  unfold bitCount
+  have h := List.length_eq_countP_add_countP (fun i => A.testBit i) (l := List.range n)
+  rw [List.length_range] at h
+  have e : (List.range n).countP (fun a => decide ¬(fun i => A.testBit i) a = true)
+      = (List.range n).countP (fun i => !A.testBit i) := by
+    congr 1; funext i; simp
+  rw [e] at h
+  omega
+
+/-! ## powers of two -/
+
+theorem popAux_eq_zero (f x : ℕ) (hx : x < 2 ^ f) (h : popAux f x = 0) : x = 0 := by
+  induction f generalizing x with
+  | zero => simpa using hx
+  | succ f ih =>
+    rw [popAux] at h
+    have h2 : x / 2 < 2 ^ f := by rw [pow_succ] at hx; omega
+    have := ih (x / 2) h2 (by omega)
+    omega
+
+theorem popAux_eq_one_iff (f x : ℕ) (hx : x < 2 ^ f) : popAux f x = 1 ↔ ∃ k, x = 2 ^ k := by
+  induction f generalizing x with
+  | zero =>
+    have : x = 0 := by simpa using hx
+    subst this
+    simp only [popAux]
+    constructor
+    · intro h; omega
+    · rintro ⟨k, hk⟩
+      have : 0 < 2 ^ k := by positivity
+      omega
+  | succ f ih =>
+    have h2 : x / 2 < 2 ^ f := by rw [pow_succ] at hx; omega
+    rw [popAux]
+    constructor
+    · intro h
+      rcases Nat.mod_two_eq_zero_or_one x with hm | hm
+      · rw [hm, Nat.zero_add] at h
+        obtain ⟨k, hk⟩ := (ih (x / 2) h2).mp h
+        exact ⟨k + 1, by rw [pow_succ]; omega⟩
+      · rw [hm] at h
+        have := popAux_eq_zero f (x / 2) h2 (by omega)
+        exact ⟨0, by simp; omega⟩
+    · rintro ⟨k, hk⟩
+      cases k with
+      | zero =>
+        have : x = 1 := by simpa using hk
+        subst this
+        simp [popAux_zero]
+      | succ k =>
+        have hm : x % 2 = 0 := by rw [hk, pow_succ]; omega
+        have hd : x / 2 = 2 ^ k := by rw [hk, pow_succ]; omega
+        rw [hm, Nat.zero_add]
+        exact (ih (x / 2) h2).mpr ⟨k, hd⟩
+
+/-- `is_power_of_two` ⇔ the value is `2^k` for some `k`. -/
+theorem isPowerOfTwo_spec (a : List ℕ) (ha : AllLt a) :
+    isPowerOfTwo a = true ↔ ∃ k, val a = 2 ^ k := by
+  unfold isPowerOfTwo
+  rw [beq_iff_eq, countOnes_eq_popAux a ha]
+  apply popAux_eq_one_iff
+  have := val_lt_pow a ha
+  unfold W at this
+  rwa [← pow_mul] at this
+
+/-! ## bit reversal of a word -/
+
+theorem revAux_testBit (f x acc j : ℕ) :
+    (revAux f x acc).testBit j = if j < f then x.testBit (f - 1 - j) else acc.testBit (j - f) := by
+  induction f generalizing x acc with
+  | zero => simp [revAux]
+  | succ f ih =>
+    rw [revAux, ih]
+    by_cases h1 : j < f
+    · have h2 : j < f + 1 := by omega
+      simp only [h1, h2, if_true]
+      have : f + 1 - 1 - j = (f - 1 - j) + 1 := by omega
+      rw [this, Nat.testBit_succ]
+    · simp only [h1, if_false]
+      by_cases h2 : j = f
+      · subst h2
+        simp only [Nat.lt_succ_self, if_true, Nat.sub_self]
+        have : j + 1 - 1 - j = 0 := by omega
+        rw [this, Nat.testBit_zero, Nat.testBit_zero, Nat.mul_add_mod, Nat.mod_mod]
+      · have h3 : ¬ j < f + 1 := by omega
+        simp only [h3, if_false]
+        have : j - f = (j - (f + 1)) + 1 := by omega
+        rw [this, Nat.testBit_succ]
+        congr 1
+        have := Nat.mod_lt x (show 0 < 2 by norm_num)
+        omega
+
+/-- spec of the word primitive behind `u64::reverse_bits`. -/
+theorem rev64_testBit (x j : ℕ) : (rev64 x).testBit j = (decide (j < 64) && x.testBit (63 - j)) := by
+  unfold rev64
+  rw [revAux_testBit]
+  by_cases h : j < 64 <;> simp [h]
+
+theorem rev64_lt (x : ℕ) : rev64 x < W := by
+  apply lt_two_pow_of_testBit
+  intro i hi
+  rw [rev64_testBit]
+  have : ¬ i < 64 := by omega
+  simp [this]
+
+theorem rev64_zero : rev64 0 = 0 := by
+  apply Nat.eq_of_testBit_eq
+  intro i
+  rw [rev64_testBit]; simp
+
+/-- reversing the limb order and each limb reverses all `64·n` bit positions. -/
+theorem val_reverse_map_rev64 (l : List ℕ) (h : AllLt l) :
+    AllLt (l.reverse.map rev64) ∧ ∀ j, (val (l.reverse.map rev64)).testBit j
+      = (decide (j < 64 * l.length) && (val l).testBit (64 * l.length - 1 - j)) := by
+  have hall : AllLt (l.reverse.map rev64) := by
+    intro y hy
+    simp only [List.mem_map] at hy
+    obtain ⟨x, _, rfl⟩ := hy
+    exact rev64_lt x
+  refine ⟨hall, fun j => ?_⟩
+  rw [val_testBit _ hall, val_testBit l h, List.getD_eq_getElem?_getD, List.getD_eq_getElem?_getD,
+    List.getElem?_map]
+  by_cases hj : j < 64 * l.length
+  · have hq : j / 64 < l.length := by omega
+    have hq' : j / 64 < l.reverse.length := by rw [List.length_reverse]; exact hq
+    rw [List.getElem?_reverse hq]
+    have e1 : (64 * l.length - 1 - j) / 64 = l.length - 1 - j / 64 := by omega
+    have e2 : (64 * l.length - 1 - j) % 64 = 63 - j % 64 := by omega
+    have hm : j % 64 < 64 := Nat.mod_lt _ (by norm_num)
+    rw [e1, e2]
+    cases hx : l[l.length - 1 - j / 64]? with
+    | none => simp [hj]
+    | some x => simp [hj, rev64_testBit, hm]
+  · have : l.reverse[j / 64]? = none := by
+      rw [List.getElem?_eq_none]; rw [List.length_reverse]; omega
+    simp [this, hj]
+
+/-! ## `most_significant_bits` -/
+
+theorem headD_eq_getD (l : List ℕ) : l.headD 0 = l.getD 0 0 := by cases l <;> rfl
+
+/-- `most_significant_bits`: exponent `e = max(bit_len − 64, 0)` and `bits = ⌊value / 2^e⌋`
+    (so the top 64 significant bits; `e = 0` and the value itself when it fits a word). -/
+theorem mostSignificantBits_spec (a : List ℕ) (ha : AllLt a) :
+    (mostSignificantBits a).2 = size (val a) - 64
+    ∧ (mostSignificantBits a).1 = val a / 2 ^ (mostSignificantBits a).2 := by
+  unfold mostSignificantBits
+  have hr := rposNonzero_spec a
+  cases h : rposNonzero a with
+  | none =>
+    rw [h] at hr
+    simp only at hr
+    simp only [Option.getD_none, if_true]
+    have hz := (val_eq_zero_iff a).mp hr
+    have : a.headD 0 = 0 := by
+      cases a with
+      | nil => rfl
+      | cons x xs => exact hz x (by simp)
+    rw [this, hr, size_zero]; simp
+  | some i =>
+    rw [h] at hr
+    simp only at hr
+    obtain ⟨h1, h2, h3⟩ := hr
+    obtain ⟨s1, s2⟩ := size_of_top a ha i h1 h2 h3
+    simp only [Option.getD_some]
+    cases i with
+    | zero =>
+      simp only [if_true]
+      have hx := getD_lt a ha 0
+      have := size_le _ 64 hx
+      rw [pow_zero, Nat.div_one] at s2
+      rw [headD_eq_getD, s1, s2]
+      simp only [Nat.mul_zero, Nat.zero_add, pow_zero, Nat.div_one, and_true]
+      rw [← s2]; omega
+    | succ i =>
+      have hne : i + 1 ≠ 0 := by omega
+      simp only [hne, if_false, Nat.add_sub_cancel]
+      have hhi := getD_lt a ha (i + 1)
+      have hlo := getD_lt a ha i
+      have c := clz64_spec _ hhi
+      obtain ⟨b1, b2⟩ := size_bounds (a.getD (i + 1) 0)
+      have b2 := b2 h2
+      have hs1 : 1 ≤ size (a.getD (i + 1) 0) := by
+        by_contra hc
+        have : size (a.getD (i + 1) 0) = 0 := by omega
+        rw [this] at b1; simp at b1; exact h2 b1
+      have hsle := size_le _ 64 hhi
+      -- value above limb i
+      have hdiv : val a / W ^ i = a.getD i 0 + W * a.getD (i + 1) 0 := by
+        rw [← val_drop a ha i, val_drop_cons, val_drop_cons a (i + 1), h3, Nat.mul_zero,
+          Nat.add_zero]
+      have hexp : (i + 1) * 64 - clz64 (a.getD (i + 1) 0) = 64 * i + size (a.getD (i + 1) 0) := by
+        omega
+      have hpow : 2 ^ (64 * i + size (a.getD (i + 1) 0)) = W ^ i * 2 ^ size (a.getD (i + 1) 0) := by
+        unfold W; rw [← pow_mul, ← pow_add]
+      refine ⟨by rw [hexp, s1]; omega, ?_⟩
+      rw [hexp, hpow, ← Nat.div_div_eq_div_mul, hdiv]
+      generalize a.getD (i + 1) 0 = hi at *
+      generalize a.getD i 0 = lo at *
+      by_cases hlz : clz64 hi > 0
+      · simp only [hlz, if_true]
+        have e64 : 64 - clz64 hi = size hi := by omega
+        have hW : W = 2 ^ size hi * 2 ^ clz64 hi := by
+          rw [← pow_add]; unfold W; congr 1; omega
+        have hprod : hi * 2 ^ clz64 hi < W := by
+          rw [hW]; exact Nat.mul_lt_mul_of_pos_right b1 (by positivity)
+        have hlo2 : lo / 2 ^ size hi < 2 ^ clz64 hi := by
+          apply Nat.div_lt_of_lt_mul; rw [← hW]; exact hlo
+        rw [Nat.mod_eq_of_lt hprod, e64, Nat.mul_comm hi, lor_eq_add _ _ _ hlo2, hW,
+          Nat.mul_assoc, Nat.add_mul_div_left _ _ (by positivity), Nat.add_comm]
+      · simp only [hlz, if_false]
+        have e64 : size hi = 64 := by omega
+        rw [e64]
+        have : (2 : ℕ) ^ 64 = W := rfl
+        rw [this, Nat.add_mul_div_left _ _ W_pos, Nat.div_eq_of_lt hlo, Nat.zero_add]
 
 end Ruint.Bits
